@@ -25,6 +25,14 @@ fn ids_to_try(s: &TabSut, universe: u8) -> Vec<u8> {
 }
 
 fn many<const N: usize>(s: &mut TabSut, ids: [u8; N], matcher: Option<&[u8]>) -> Result<(), String> {
+    many_impl::<N>(s, ids, matcher, false)?;
+    if matcher.is_none() {
+        many_impl::<N>(s, ids, matcher, true)?;
+    }
+    Ok(())
+}
+
+fn many_impl<const N: usize>(s: &mut TabSut, ids: [u8; N], matcher: Option<&[u8]>, unchecked: bool) -> Result<(), String> {
     let hashes: [u64; N] = std::array::from_fn(|i| plan_hash(ids[i]));
     let lawful = matcher.is_none();
     let before = s.model.clone();
@@ -39,12 +47,18 @@ fn many<const N: usize>(s: &mut TabSut, ids: [u8; N], matcher: Option<&[u8]>) ->
             }
         }
     }
+    if unchecked && expect_panic {
+        // overlapping requests are outside the contract of get_many_unchecked_mut
+        return Ok(());
+    }
     let table = &mut s.table;
     let r = env::catch(|| {
-        let res = table.get_many_mut(hashes, |i, e| match matcher {
+        let eq = |i: usize, e: &TEl| match matcher {
             None => e.id == ids[i],
             Some(m) => m.contains(&e.id),
-        });
+        };
+        // SAFETY (contract of the unchecked variant): lawful closure, no two requests resolve to the same entry
+        let res = if unchecked { unsafe { table.get_many_unchecked_mut(hashes, eq) } } else { table.get_many_mut(hashes, eq) };
         // addresses and a write through every reference
         let mut out: [Option<(usize, u8, u32)>; N] = [None; N];
         for (i, r) in res.into_iter().enumerate() {
